@@ -123,20 +123,20 @@ NOT_BUILT = {}
 # Workload extensions made after the three rounds of seeded changes (DESIGN.md 10.4); appended to
 # the level text of the check concerned.
 EXTRA = {
- "C01": " Caches are also built under non-power-of-two CPU counts (sched_setaffinity), i.e. shard counts that are not a power of two.",
- "C02": " Ids include one containing '/'; every third random tree has compounds that call get_or_insert while being loaded, also on their own key; caches are built under 1,2,3,5,6,7,12,16 CPUs.",
- "C03": " Plus the real FileSystem source with entries that exist but cannot be read (symbolic link loops) or are of the wrong kind, every state pair over two extensions, three front-ends, with and without default_value.",
- "C04": " Trees contain occasional 40-300 kB incompressible files and, in one of seven constructs, names that cannot be ids among valid ones (only the valid entries are judged).",
+ "C01": " Caches are also built under non-power-of-two CPU counts (sched_setaffinity), i.e. shard counts that are not a power of two; every fourth round spells its ids with '/'; racers whose losing value panics in its destructor must leave the cache usable.",
+ "C02": " Ids include one containing '/' and one starting with '.'; every third random tree has compounds that call get_or_insert while being loaded, also on their own key; caches are built under 1,2,3,5,6,7,12,16 CPUs.",
+ "C03": " Plus the real FileSystem source with entries that exist but cannot be read (symbolic link loops) or are of the wrong kind, every state pair over two extensions, three front-ends, with and without default_value; half of the undecodable files make the loader fail with an io::Error.",
+ "C04": " Trees contain occasional 40-300 kB incompressible files and, in one of seven constructs, names that cannot be ids among valid ones (only the valid entries are judged); an extra filesystem form reached through symbolic links, archive members spelled 'pad/../<path>', a root directory with a dot in its name, and trees that are a single empty directory (archives without members).",
  "C05": " Plus: a registration backlog ('burst') shape, changes pending at enhance_hot_reloading, and histories on the real FileSystem source with the OS watcher (sentinel file as FIFO barrier).",
- "C06": " Plus: four threads polling reloaded_global at the same moment after exactly one rewrite; a reader holding a guard while another thread is inside hot_reload (nothing may report the reload before the rewrite); ReloadWatcher::last_reload_id and watchers created after reloads.",
+ "C06": " Plus: four threads polling reloaded_global at the same moment after exactly one rewrite; a reader holding a guard while another thread is inside hot_reload (nothing may report the reload before the rewrite); ReloadWatcher::last_reload_id and watchers created after reloads; a zero-sized compound; an orphaned graph entry that is notified.",
  "C07": " Readers also use copied()/cloned() on 512-byte and 12-byte Copy assets and hold plain / mapped guards on a 4-byte asset.",
- "C08": " Plus configurations: enhance_hot_reloading followed by hot_reload calls, reloads that load 60-220 assets never loaded before ('fanout'), and a source that drops its EventSender while callers are inside hot_reload.",
+ "C08": " Plus configurations: enhance_hot_reloading followed by hot_reload calls, reloads that load 60-220 assets never loaded before ('fanout'), a source that drops its EventSender while callers are inside hot_reload, an endless self-sustained stream of notifications in enhance_hot_reloading mode, hand-stored entries under keys the graph knows, and a 1500-link dependency chain.",
  "C09": " Nested compound loads are guarded by catch_unwind and followed by further reads, every scenario ends with one single-entry edit per leaf judged by attribution; plus faults of the medium below Tar / Zip sources (the reader ends or fails inside a member after indexing).",
  "C10": " Plus Arc<T> / OnceInitCell<T,_> of an opt-out type, get_or_insert called from inside Compound::load (calling thread and reloader thread) on keys the dependency graph already knows, and a source that keeps its sender although its configuration failed.",
- "C11": " Plus a hand-written DirLoadable that overrides sub_directories, plain and wrapped in Arc; trees with unrepresentable names among valid ones.",
- "C12": " Real histories use five spellings of the watched root (canonical, relative, './'-relative, through a symlink, with '..'), a second root whose spelling continues the first one's, overlapping roots, and symbolic links to files and directories.",
+ "C11": " Plus a hand-written DirLoadable that overrides sub_directories, plain and wrapped in Arc; trees with unrepresentable names among valid ones; exactly the n-th read_dir of a directory failing.",
+ "C12": " Real histories use five spellings of the watched root (canonical, relative, './'-relative, through a symlink, with '..'), a second root whose spelling continues the first one's, overlapping roots, symbolic links to files and directories, hidden files, and notifications about a watched root that no longer exists.",
  "C13": " Plus readers taking short guards during a stream of 400 reloads, and a guard on a get_or_insert value (key known to the dependency graph) during hot_reload; allocator brackets are taken only after helper threads have gone.",
- "C14": " Atoms include load / load_owned of a not yet cached opt-out type and a two-extension leaf whose first file is created later.",
+ "C14": " Atoms include load / load_owned of a not yet cached opt-out type a two-extension leaf whose first file is created later, a recursive directory over three levels, and two loads overlapping on two threads (one and two caches) with a rendezvous inside the loaders.",
  "C15": " Plus: OS-watcher thread teardown after drop, a custom source that joins its own watcher thread in Drop (quiescent-cycle verdict), enhance_hot_reloading idleness after changes that fail or concern load_owned files, and 'no native watcher' produced in a child process inside a private user namespace (max_inotify_instances = 0).",
  "C16": " Plus lock-step concurrent drops inside an allocator bracket, read-then-drop without later synchronisation (for the race detectors), and iterators with absent / wrong / inexact size hints.",
  "C17": " Every sequence containing a panic also runs through get_or_init; a value type without drop glue.",
